@@ -113,21 +113,9 @@ func VerifParseRunFilename(name string) (string, string, int, string, string) {
 	return (*Node)(nil).parseRunFilename(name)
 }
 
-// VerifForkIdString renders a fork id made of map keys and array indices
-// (idx < 0 means "use the key").
-func VerifForkIdString(keys []string, idx []int, lens []int) (string, error) {
-	id := make(ForkId, len(keys))
-	for i := range keys {
-		p := &ForkSourcePart{}
-		if idx[i] >= 0 {
-			p.Id = arrayIndexFork(idx[i])
-			p.Range = arrayLengthRange(lens[i])
-		} else {
-			p.Id = mapKeyFork(keys[i])
-		}
-		id[i] = p
-	}
-	return id.ForkIdString()
+// VerifArrayForkName is the directory name of the fork for array index i.
+func VerifArrayForkName(i int) (string, error) {
+	return arrayIndexFork(i).forkString(), nil
 }
 
 func VerifAppendShellSafeQuote(buf []byte, s string) []byte {
